@@ -41,6 +41,7 @@ def step : List String → String
       s!"ok a={one a} b={one b}"
     | _, _, _ => "bad-op"
   | "fund" :: _ => "ok"
+  | "fundpool" :: _ => "ok"
   | "creset" :: _ => "ok"
   | "slash" :: _ => "skip"
   | "govburn" :: _ => "skip"
